@@ -3,19 +3,27 @@ package iterators
 // Range creates an Iterator that will
 // iterate numbers from a to b, including b.
 func Range(a, b int) Iterator {
-	return &ranger{pos: a - 1, end: b}
+	return &ranger{pos: a, end: b, done: a > b}
 }
 
+// ranger yields pos, pos+1, ... end. It never computes a value outside
+// [pos, end], so intervals touching the limits of int do not overflow.
 type ranger struct {
-	pos int
-	end int
+	pos  int // next number to yield
+	end  int // last number to yield
+	done bool
 }
 
 // Next returns the next number in the Range or nil
 func (r *ranger) Next() interface{} {
-	if r.pos < r.end {
-		r.pos++
-		return r.pos
+	if r.done {
+		return nil
 	}
-	return nil
+	v := r.pos
+	if r.pos >= r.end {
+		r.done = true
+	} else {
+		r.pos++
+	}
+	return v
 }
